@@ -46,6 +46,9 @@ class Job:
     required: bool = True  # False: budgeted family, may end non-exhaustive
 
 
+_RECENT: list = []
+
+
 class Ctx:
     """Per-cube collector handed to harnesses."""
 
@@ -59,12 +62,30 @@ class Ctx:
         self.nontrivial = 0
         self.evaluations = 0
         self.extra: Counter = Counter()
+        self.recent = _RECENT  # per worker process, across cubes
+        self._current = None
+
+    HISTORY = 30
+
+    @property
+    def current(self):
+        return self._current
+
+    @current.setter
+    def current(self, desc):
+        # inputs handled earlier by this process: a failure that needs that history (state kept by the
+        # library between calls) is replayed with it when it does not reproduce on its own
+        if getattr(self, "_current", None) is not None:
+            self.recent.append(self._current)
+            if len(self.recent) > self.HISTORY:
+                del self.recent[0]
+        self._current = desc
 
     def fail(self, kind: str, signature: str, desc: dict, detail: str = ""):
         self.fail_counts[signature] += 1
         lst = self.failures.setdefault(signature, [])
         if len(lst) < self.MAX_FAIL_PER_SIG:
-            lst.append({"kind": kind, "signature": signature, "input": desc, "detail": detail[:600]})
+            lst.append({"kind": kind, "signature": signature, "input": desc, "detail": detail[:600], "history": list(self.recent)})
 
     def feature(self, name: str, n: int = 1):
         self.features[name] += n
@@ -188,9 +209,9 @@ def source_hashes(function_names):
     return out
 
 
-def run_replay_file(path):
+def run_replay_file(path, with_history=False):
     """Replay in a fresh interpreter without engine / proxies / hooks."""
-    cmd = [sys.executable, "-m", "vf.main", "--replay", path]
+    cmd = [sys.executable, "-m", "vf.main", "--replay-with-history" if with_history else "--replay", path]
     env = dict(os.environ)
     env["PYTHONPATH"] = VERIF + os.pathsep + env.get("PYTHONPATH", "")
     env["PYTHONDONTWRITEBYTECODE"] = "1"
@@ -326,9 +347,18 @@ def run_property(pid: str, tier: str) -> int:
         h = hashlib.sha1(json.dumps([pid, sig, f0["input"]], sort_keys=True).encode()).hexdigest()[:10]
         path = os.path.join(VERIF, "replays", f"{pid}-{h}.json")
         with open(path, "w") as fh:
-            json.dump({"property": pid, "signature": sig, "kind": f0["kind"], "input": f0["input"], "detail": f0["detail"]}, fh, indent=1)
+            json.dump({"property": pid, "signature": sig, "kind": f0["kind"], "input": f0["input"], "detail": f0["detail"],
+                       "history": f0.get("history", [])}, fh, indent=1)
         status, sigs = run_replay_file(path)
         replays_run += 1
+        if sig not in sigs and f0.get("history") and not getattr(mod, "NO_HISTORY_REPLAY", False):
+            status2, sigs2 = run_replay_file(path, with_history=True)
+            replays_run += 1
+            if sig in sigs2:
+                status, sigs = status2, sigs2
+        if status == "REPRODUCED-WITH-HISTORY" and sig in sigs:
+            status = "REPRODUCED"
+            f0 = dict(f0, detail=f0["detail"] + " [reproduces only after the inputs recorded under 'history' were processed in the same process]")
         if status == "REPRODUCED" and sig in sigs:
             if sig in known:
                 known_met.append(sig)
